@@ -1,9 +1,9 @@
 (** The source names of the pipeline's order tables, derived from the
     literals [checker_order] and [stage_order] the model (and hence every C01 /
-    C02 theorem) is built on.  The checkers and stages the model does not
-    cover are named explicitly with their position: they are switched off in
-    the harness (hosts-file container, safe search; DDR, DHCP hosts / addrs,
-    ipset).  No proofs here. *)
+    C02 theorem) is built on.  Since round 2 every checker of filtering.New
+    and every stage of handleDNSRequest has its constructor in the model, so
+    the expected tables are just the images of the model's literals.
+    No proofs here. *)
 From Coq Require Import List String Bool Arith.
 From AGH Require Import Model.Pipeline.
 Import ListNotations.
@@ -11,34 +11,30 @@ Local Open Scope string_scope.
 
 Definition checker_fn (k : checker) : string :=
   match k with
+  | ChkSysHosts => "matchSysHosts"
   | ChkRules => "matchHost"
   | ChkServices => "matchBlockedServicesRules"
   | ChkSafeBrowsing => "checkSafeBrowsing"
   | ChkParental => "checkParental"
+  | ChkSafeSearch => "checkSafeSearch"
   end.
 
 Definition stage_fn (s : stage) : string :=
   match s with
   | StInitial => "processInitial"
+  | StDDR => "processDDRQuery"
+  | StDHCPHosts => "processDHCPHosts"
+  | StDHCPAddrs => "processDHCPAddrs"
   | StFilterBefore => "processFilteringBeforeRequest"
   | StUpstream => "processUpstream"
   | StFilterAfter => "processFilteringAfterResponse"
+  | StIpset => "ipset.process"
   | StLog => "processQueryLogsAndStats"
   end.
 
-(** The hosts-file container runs first, safe search last; the modelled
-    checkers in between, in the model's order. *)
-Definition expected_checkers : list string :=
-  ["matchSysHosts"] ++ map checker_fn checker_order ++ ["checkSafeSearch"].
+Definition expected_checkers : list string := map checker_fn checker_order.
 
-(** The modelled stages in the model's order, with the unmodelled ones at
-    their places. *)
-Definition expected_stages : list string :=
-  match map stage_fn stage_order with
-  | [ini; before; up; after; lg] =>
-      [ini; "processDDRQuery"; "processDHCPHosts"; "processDHCPAddrs"; before; up; after; "ipset.process"; lg]
-  | other => other
-  end.
+Definition expected_stages : list string := map stage_fn stage_order.
 
 (** Positions where two tables differ: (index, expected, found). *)
 Fixpoint table_extra (i : nat) (found : list string) : list (nat * string * string) :=
